@@ -10,6 +10,7 @@ package main
 
 import (
 	"fmt"
+	"hash/fnv"
 	"os"
 	"strconv"
 	"strings"
@@ -58,8 +59,126 @@ func synDecodeBig(d *decode.D) any {
 	return nil
 }
 
+// ---- variant >= 200: a FILE-BACKED input larger than the 512 KiB read-ahead window of `open`
+// (binary.go cacheReadAheadSize, internal/aheadreadseeker).  Values are read in an order that makes
+// the reader seek away and back: an `anchor` value (reading it opens a window at its byte offset),
+// directly followed by a `cross` value that starts inside that window and ends behind its end;
+// starts at all bit alignments, around multiples of 524288 and 32768 bytes; plus values larger
+// than the window and a value up to the very end of the file.
+
+const aheadWindow = 524288
+
+// variant 200 (quick and thorough): one window + 70000 bytes; variants > 200 (thorough): two windows + …
+func hugeSizeFor(k int64) int64 {
+	if k <= 200 {
+		return aheadWindow + 70000 + 13
+	}
+	return 2*aheadWindow + 70000 + 13
+}
+
+type hugePair struct{ s1, a, deltaBits, extraBits int64 }
+
+func hugePairs(k int64) []hugePair {
+	hugeSize := hugeSizeFor(k + 200)
+	var ps []hugePair
+	bases := []int64{0, 44, 32768 - 1, 32768 + 5, 65536, 100000 + k, 262144 - 3, 400000, 524288 - 7, 524288, 524288 + 3, 540000 + 7*k}
+	deltas := []int64{8, 8*44 + 3, 8 * 4096, 8*32767 + 1, 8 * 32768, 8*32769 + 5, 8*65536 + 3}
+	extras := []int64{1, 8, 8*100 + 5, 8*33000 + 2}
+	i := k
+	for bi, b := range bases {
+		for di, dl := range deltas {
+			// every base meets 3 of the 7 distances (all of them over the bases and variants)
+			if (int64(bi)+int64(di)+k)%7 >= 3 {
+				continue
+			}
+			ex := extras[i%int64(len(extras))]
+			a := i % 8
+			i++
+			if (b+aheadWindow)*8+a-dl+dl+ex > hugeSize*8 {
+				continue
+			}
+			ps = append(ps, hugePair{s1: b, a: a, deltaBits: dl, extraBits: ex})
+		}
+	}
+	return ps
+}
+
+func synDecodeHuge(d *decode.D) any {
+	k := synVariant - 200
+	d.FieldU("magic", 32) // like every real decoder: a header read at decode time opens the window at 0
+	d.FieldArray("pairs", func(d *decode.D) {
+		for _, p := range hugePairs(k) {
+			d.FieldStruct("p", func(d *decode.D) {
+				d.SeekAbs(p.s1*8 + p.a)
+				d.FieldRawLen("anchor", 13+p.a)
+				d.SeekAbs((p.s1+aheadWindow)*8 + p.a - p.deltaBits)
+				d.FieldRawLen("cross", p.deltaBits+p.extraBits)
+			})
+		}
+	})
+	d.SeekAbs(44 * 8)
+	hugeSize := hugeSizeFor(synVariant)
+	d.FieldRawLen("big", 540000*8) // the shape of a wav/tar/mp4 payload: larger than the window
+	d.SeekAbs(44*8 + 3 + k%5)
+	d.FieldRawLen("bigu", 530000*8+5)
+	d.SeekAbs(hugeSize*8 - (8*5000 + 3))
+	d.FieldRawLen("tail", 8*5000+3)
+	return nil
+}
+
+// hugeRoot: position dependent pseudo random content from a seed (too long to put into a case line)
+func hugeRoot(seed uint64, k int64) []byte { return hlib.NewRand(seed).Bytes(int(hugeSizeFor(k))) }
+
+func planHuge(rc *rec, r *hlib.Rand) ([]opDesc, bool, bool) {
+	name := rc.path[strings.LastIndexAny(rc.path, ".]")+1:]
+	switch {
+	case rc.top:
+		// the whole input through the pad-applying path, observed as md5 (small observation)
+		return []opDesc{{"rfmt8:md5:10"}}, false, true
+	case name == "anchor" || name == "magic":
+		return []opDesc{{"tobits"}, {"tobytes"}}, false, true
+	case name == "cross" || name == "tail":
+		if rc.length <= 8*5000+8 {
+			return []opDesc{{"tobits"}, {"tobytes"}, {"fmt:md5:10"}, {"fmt:string:10"}, {"fmt:hex:10"}, {"fmt:base64:10"},
+				{"rfmt8:byte_array:10"}}, r.Intn(2) == 0, true
+		}
+		// long: one full observation (which one varies) and two digests
+		full := []string{"tobytes", "tobits", "fmt:string:10", "fmt:byte_array:10"}[r.Intn(4)]
+		return []opDesc{{full}, {"fmt:md5:10"}, {"fmt:truncate:10"}}, false, true
+	case name == "big":
+		return []opDesc{{"fmt:md5:10"}, {"fmt:truncate:10"}, {"fmt:snippet:16"}}, true, true
+	case name == "bigu":
+		return []opDesc{{"tobytes"}, {"fmt:md5:10"}}, false, true
+	}
+	return nil, false, false
+}
+
+func runHugeTree(o *hlib.Out, seed uint64, k int64, emitOnly string) {
+	synVariant = k
+	saved := mainTimeout
+	mainTimeout = 15 * time.Minute
+	defer func() { mainTimeout = saved }()
+	root := hugeRoot(seed, k)
+	src := fmt.Sprintf("syn:g%d:v%d", seed, k)
+	h := fnv.New64a()
+	h.Write([]byte(src))
+	pr := hlib.NewRand(h.Sum64()) // the plan is a function of the source: a replay re-creates the same history
+	s := &session{o: o, src: src, fileBytes: root, onDisk: true, emitOnly: emitOnly,
+		planFn: func(rc *rec) ([]opDesc, bool, bool) { return planHuge(rc, pr) }}
+	if err := s.runMain("verif_c05", "syn.bin", root); err != nil {
+		fmt.Fprintf(os.Stderr, "huge tree v%d: %v\n", k, err)
+		o.Case(fmt.Sprintf("v src=%s path=. L=0 r=0:0 fl=- w=0:- ops=synfailed", s.src), "missing")
+	}
+	o.Stat("huge_trees", 1)
+	o.Stat("huge_file_bytes", int(hugeSizeFor(k)))
+	o.Stat("huge_values", s.seen)
+}
+
 func synDecode(d *decode.D) any {
 	k := synVariant
+	if k >= 200 {
+		return synDecodeHuge(d)
+	}
 	if k >= 100 {
 		return synDecodeBig(d)
 	}
@@ -170,17 +289,35 @@ func runSynthetic(o *hlib.Out, r *hlib.Rand, thorough bool) {
 		ops, so := planFor(rc, pr, 2, cliFmtFor(fmt.Sprintf("syn:%s:v%d", hlib.Hex(bigRoot), 100)))
 		return ops, so, true
 	})
+	// file-backed inputs larger than the read-ahead window of `open`
+	nHuge := int64(1)
+	if thorough {
+		nHuge = 3
+	}
+	for k := int64(0); k < nHuge; k++ {
+		runHugeTree(o, r.U64()%1000000, 200+k, "")
+	}
 	o.Stat("exhaustive_small_domain", 1)
 	o.Stat("syn_alignments", 8)
 	o.Stat("syn_max_len", 70)
 }
 
 func replaySyn(o *hlib.Out, r *hlib.Rand, rootHex, variant, path string, ops []opDesc) {
-	root := hlib.UnHex(rootHex)
 	k, err := strconv.ParseInt(strings.TrimPrefix(variant, "v"), 10, 64)
 	if err != nil {
 		return
 	}
+	if strings.HasPrefix(rootHex, "g") {
+		// generated content: the whole tree is re-evaluated with the same plan (the failure may need
+		// the reads of the values before it), only the requested value is written
+		seed, err := strconv.ParseUint(rootHex[1:], 10, 64)
+		if err != nil || k < 200 {
+			return
+		}
+		runHugeTree(o, seed, k, path)
+		return
+	}
+	root := hlib.UnHex(rootHex)
 	runSynTree(o, root, k, func(rc *rec) ([]opDesc, bool, bool) {
 		if rc.path != path {
 			return nil, false, false
